@@ -604,6 +604,8 @@ def c07(ctx):
         ctx.model("c07-" + name, c, invariants=["QuietImpliesDone"], properties=["Completes"], spec="FairSpec", timeout=1800)
         ctx.export_validate("c07x-" + name, c, "ake", drain=True)
     ctx.random_validate("akestart", 64 if ctx.quick() else 640, 30)
+    # messages that travelled twice arrive after the session they belong to was ended; then a new start
+    ctx.random_validate("dupend", 24 if ctx.quick() else 96, 1)
     # key-exchange messages arriving (again) inside or right after a session must be answered as the protocol says
     ctx.attack_catalogue("ake")
 
